@@ -91,6 +91,40 @@ class CtCallback(FnSpec):
         return self._clauses(F)
 
 
+isasyncgenfunction_u = z3.Function("isasyncgenfunction_u", Val, B)
+
+
+class CtDecorate(FnSpec):
+    """C01 (decoration time of `@context_teardown`): the decorator returns its `wrapper` closure exactly when the given function is an async
+    generator function and raises TypeError otherwise; it neither calls the function nor registers anything (no contracted call besides the pure `callable_name` of the error text, no opaque
+    call of `func`, no suspension) - the only route from a decorated function to a teardown callback is a call of the wrapper."""
+    qual = CT
+    properties = ("C01",)
+    param_types = {"func": ANY}
+    modifies = "rely"
+    may_raise = True
+    check_guarantee = False
+
+    def requires(self, F):
+        return []
+
+    def _quiet(self, F):
+        tr = F.new_st.trace
+        func = F.t("func")
+        called = [e for e in tr if e[0] in ("opaque", "opaque-raise") and not isinstance(e[1], str) and hasattr(e[1], "t")]
+        return [("decoration-registers-nothing-and-does-not-start-the-generator",
+                 z3.And(z3.BoolVal(not [e for e in tr if e[0] == "suspend" or (e[0] == "spec_call" and e[1] != "_utils.callable_name")]), *[z3.Not(e[1].t == func) for e in called]))]
+
+    def local_ensures(self, F):
+        w = F.eng.make_closure(F.new_st, None, CT + ".wrapper").t
+        return [("returns-the-wrapper-only-for-an-async-generator-function", z3.And(F.result.t == w, isasyncgenfunction_u(F.t("func"))))] + self._quiet(F)
+
+    def local_raises(self, F):
+        return [("rejects-exactly-the-non-async-generator-functions-with-TypeError",
+                 z3.And(F.exc_is("TypeError"), z3.Not(isasyncgenfunction_u(F.t("func")))))] + self._quiet(F)
+
+
 def register(reg):
     reg.add(CtWrapper)
     reg.add(CtCallback)
+    reg.add(CtDecorate)
